@@ -330,6 +330,41 @@ pub(crate) fn center<const D: usize>(points: &[PointND<D>]) -> PointND<D> {
     points.par_iter().sum::<PointND<D>>() / total
 }
 
+/// Read-only access to private items for the verification harness.
+#[cfg(coupe_verif)]
+pub mod verif {
+    use super::*;
+
+    /// The points mapped into the frame of their oriented bounding box (what
+    /// Rib, HilbertCurve and ZCurve work on), and the matrix used (row-major).
+    pub fn obb_frame<const D: usize>(points: &[PointND<D>]) -> Option<(Vec<PointND<D>>, Vec<f64>)>
+    where
+        Const<D>: DimSub<Const<1>>,
+        DefaultAllocator: Allocator<f64, Const<D>, Const<D>, Buffer = ArrayStorage<f64, D, D>>
+            + Allocator<f64, DimDiff<Const<D>, Const<1>>>,
+    {
+        let obb = OrientedBoundingBox::from_points(points)?;
+        let mapped = points.iter().map(|p| obb.obb_to_aabb(p)).collect();
+        let mut matrix = Vec::with_capacity(D * D);
+        for i in 0..D {
+            for j in 0..D {
+                matrix.push(obb.obb_to_aabb[(i, j)]);
+            }
+        }
+        Some((mapped, matrix))
+    }
+
+    /// The axis-aligned box of the oriented bounding box, in its own frame.
+    pub fn obb_aabb<const D: usize>(points: &[PointND<D>]) -> Option<BoundingBox<D>>
+    where
+        Const<D>: DimSub<Const<1>>,
+        DefaultAllocator: Allocator<f64, Const<D>, Const<D>, Buffer = ArrayStorage<f64, D, D>>
+            + Allocator<f64, DimDiff<Const<D>, Const<1>>>,
+    {
+        OrientedBoundingBox::from_points(points).map(|obb| obb.aabb().clone())
+    }
+}
+
 #[cfg(test)]
 mod tests {
     use super::*;
